@@ -107,7 +107,7 @@ def check_layout(case):
 
 def tasks(tier):
     n = NMAX[tier]
-    ts = [("layout",)]
+    ts = [("layout",), ("via",)]
     for name in SERIES_TESTS:
         for ci in range(len(G.SPECS[name]["cfgs"])):
             ts.append(("series", name, ci, n))
@@ -217,7 +217,29 @@ def check_case(case):
         else:
             pb = G.build(name, cfg, pre["x"] if not pos else list(range(len(pre["lon"]))), how, z=pre.get("z"), secs=pre.get("secs"), lon=pre.get("lon"), lat=pre.get("lat"))
             alpha.call(pb[0], **pb[1])
-    out = alpha.call(fn, **kw)
+    if case.get("via"):
+        # the same series handed to the test by a front end (NumpyStream / QcConfig.run) instead of a direct call
+        def through():
+            import warnings
+
+            from ioos_qc.config import Config, QcConfig
+            from ioos_qc.results import collect_results
+            from ioos_qc.streams import NumpyStream
+
+            cfgd = {spec["mod"]: {name: G.build_cfg(name, cfg)}}
+            axes = dict(time=kw.get("tinp"), z=kw.get("zinp"), lat=kw.get("lat"), lon=kw.get("lon"))
+            data = kw["inp"] if not pos else kw["lon"]
+            if case["via"] == "qcconfig":
+                with warnings.catch_warnings():
+                    warnings.simplefilter("ignore")
+                    r = QcConfig(cfgd).run(inp=data, tinp=axes["time"], zinp=axes["z"], lat=axes["lat"], lon=axes["lon"])
+                return r[spec["mod"]][name]
+            res = list(NumpyStream(inp={"v": data}, **{k: v for k, v in axes.items() if v is not None}).run(Config({"streams": {"v": cfgd}})))
+            return collect_results(res, how="list")[0].results
+        fn, kw_call = through, {}
+    else:
+        kw_call = kw
+    out = alpha.call(fn, **kw_call)
     if isinstance(out, alpha.Raised):
         return [V(f"{PROP}|{name}|symptom=raises:{out.name}", f"{name} raised {out.name}: {out.msg}", None, repr(out))], has_missing, ("exc", out.name), 0
     vals, _, problems = alpha.flags_of(out)
@@ -225,6 +247,8 @@ def check_case(case):
         return [V(f"{PROP}|{name}|symptom=shape", f"{name} returned {vals!r} for {n} inputs", n, vals)], has_missing, None, 0
     vs = []
     shape = ""
+    if case.get("via"):
+        shape = f"|via={case['via']}"
     if name == "climatology_test":
         shape = "|members=" + "+".join((m.get("period") or "absolute") + ("/z" if "zspan" in m else "") for m in cfg["config"])
     for i in range(n):
@@ -258,6 +282,26 @@ def run_task(task, acc):
                     for which in ("gross", "valid", "location"):
                         for masked in (False, True):
                             yield dict(grid=g, order=order, which=which, masked=masked)
+        run_cases(acc, gen(), check_case)
+        return
+    if kind == "via":
+        def gen():
+            for name in SERIES_TESTS + ["density_inversion_test", "location_test"]:
+                for ci, cfg in enumerate(G.SPECS[name]["cfgs"][:3]):
+                    for via in ("numpystream", "qcconfig"):
+                        if G.SPECS[name]["kind"] == "position":
+                            for pres in itertools.product(((True, True), (False, False), (True, False)), repeat=3):
+                                lon = [float(j) if p[0] else NAN for j, p in enumerate(pres)]
+                                lat = [float(j) if p[1] else NAN for j, p in enumerate(pres)]
+                                yield dict(fn=name, cfg=cfg, lon=lon, lat=lat, secs=alpha.regular_secs(3, 3600), how="ma", via=via)
+                            continue
+                        for x in alpha.all_seqs((0.0, 2.0, NAN), 1, 4):
+                            if NAN not in x:
+                                continue
+                            c = dict(fn=name, cfg=cfg, x=list(x), how="ma", secs=alpha.regular_secs(len(x)), via=via)
+                            if name == "density_inversion_test":
+                                c["z"] = [float(10 + j) for j in range(len(x))]
+                            yield c
         run_cases(acc, gen(), check_case)
         return
     if kind == "series":
